@@ -123,7 +123,7 @@ func VerifC08Floor() {
 }
 
 // faultPlan draws a fault for every compaction delete: none, definite error, unknown-applied,
-// or (once chosen) crash = this and every later delete fails.
+// unknown-not-applied, or (once chosen) crash = this and every later delete fails.
 type vFaultPlan struct {
 	crashed bool
 	n       int
@@ -141,7 +141,11 @@ func (f *vFaultPlan) at(kind string, n int) zzmodel.Fault {
 		return zzmodel.FaultNone
 	}
 	// every delete of the pass is a candidate position; at most f.max of them fail
-	switch zzverif.Choose("delfault", 4) {
+	switch zzverif.Choose("delfault", 5) {
+	case 4:
+		f.n++
+		zzverif.Cover("delete-unknown-lost")
+		return zzmodel.FaultUnknownLost
 	case 1:
 		f.n++
 		zzverif.Cover("delete-error")
